@@ -1,6 +1,7 @@
 -------------------------------- MODULE Reader --------------------------------
 (* One reader instance over a fixed bigWig file, through any history of calls (C03):
-   get_interval, values, conversion to the caching reader, reopening.  The caching reader keeps
+   get_interval, values, get_zoom_interval on the file's zoom level, conversion to the caching reader, reopening.
+   The caching reader keeps
    a map of R-tree nodes by offset and a map of block contents by (offset,size) that is cleared
    when it holds CacheCap entries before an insert (5000 in the code).  The lazily validated index
    offset is part of the reader's info.  Property: the answer of every call equals the abstract
@@ -10,10 +11,17 @@ EXTENDS RTree, BigWigSpec
 CONSTANTS Items,      \* the stored values <<chrom, start, end, value>>, one block each (items_per_slot = 1)
           Fanout,     \* block_size of the index
           CacheCap,
-          Queries     \* set of <<chrom, s, e>>
+          Queries,    \* set of <<chrom, s, e>>
+          ZRecs       \* the records <<chrom, start, end>> of the file's zoom level, one block each (<<>>: no zoom level);
+                      \* its index is a second R-tree in the same file: the caching reader keeps nodes and blocks of BOTH
+                      \* trees in the same two maps (keyed by file offset), under the same capacity
 
 Secs == Map(LAMBDA it : <<it[1], it[2], it[3]>>, Items)
 Img == Image(Secs, Fanout)
+ZImg == Image(ZRecs, Fanout)
+NI == Len(Items)
+\* block keys: 1..NI are data blocks, NI + k is the k-th zoom block; zoom index nodes are kept under negated offsets
+Content(k) == IF k <= NI THEN Items[k] ELSE LET z == ZRecs[k - NI] IN <<z[1], z[2], z[3], 0>>
 
 VARIABLES mode,        \* "plain" | "cached"
           nodeCache,   \* set of node offsets held by the caching reader
@@ -24,14 +32,16 @@ VARIABLES mode,        \* "plain" | "cached"
 rvars == <<mode, nodeCache, blockCache, idxKnown, last, steps>>
 
 \* nodes visited by the DFS for a query
-RECURSIVE VisitedFrom(_, _, _, _, _)
-VisitedFrom(off, qc, qs, qe, fuel) ==
-  IF fuel = 0 \/ off \notin DOMAIN Img THEN {}
-  ELSE LET nd == Img[off]
+RECURSIVE VisitedFrom(_, _, _, _, _, _)
+VisitedFrom(img, off, qc, qs, qe, fuel) ==
+  IF fuel = 0 \/ off \notin DOMAIN img THEN {}
+  ELSE LET nd == img[off]
            hits == SelectSeq(nd.items, LAMBDA it : Overlaps(qc, qs, qe, it[1])) IN
-       {off} \cup (IF nd.leaf THEN {} ELSE UNION {VisitedFrom(hits[i][2], qc, qs, qe, fuel - 1) : i \in 1..Len(hits)})
-Visited(q) == VisitedFrom(HeaderSize, q[1], q[2], q[3], 12)
+       {off} \cup (IF nd.leaf THEN {} ELSE UNION {VisitedFrom(img, hits[i][2], qc, qs, qe, fuel - 1) : i \in 1..Len(hits)})
+Visited(q) == VisitedFrom(Img, HeaderSize, q[1], q[2], q[3], 12)
 Blocks(q) == Search(Img, q[1], q[2], q[3])            \* block numbers in file order
+ZVisited(q) == {0 - o : o \in VisitedFrom(ZImg, HeaderSize, q[1], q[2], q[3], 12)}
+ZBlocks(q) == Map(LAMBDA k : NI + k, Search(ZImg, q[1], q[2], q[3]))
 
 \* reading blocks through the cache: returns <<cache', contents read>>
 RECURSIVE ReadBlocks(_, _, _)
@@ -40,14 +50,18 @@ ReadBlocks(cache, bs, acc) ==
   ELSE LET k == Head(bs) IN
        IF k \in DOMAIN cache THEN ReadBlocks(cache, Tail(bs), Append(acc, cache[k]))
        ELSE LET c0 == IF Cardinality(DOMAIN cache) >= CacheCap THEN <<>> ELSE cache
-                c1 == [x \in (DOMAIN c0) \cup {k} |-> IF x = k THEN Items[k] ELSE c0[x]] IN
-            ReadBlocks(c1, Tail(bs), Append(acc, Items[k]))
+                c1 == [x \in (DOMAIN c0) \cup {k} |-> IF x = k THEN Content(k) ELSE c0[x]] IN
+            ReadBlocks(c1, Tail(bs), Append(acc, Content(k)))
 EmptyCache == [x \in {} |-> <<>>]
 
 \* filter + clip of get_block_values on the contents that were read
 Answer(contents, q) ==
   LET mine == SelectSeq(contents, LAMBDA it : it[1] = q[1] /\ it[3] > q[2] /\ it[2] < q[3]) IN
   Map(LAMBDA it : <<Max2(it[2], q[2]), Min2(it[3], q[3]), it[4]>>, mine)
+
+\* get_zoom_block_values: the records of the blocks read that touch [s, e] on the chromosome, unclipped
+ZAnswer(contents, q) ==
+  Map(LAMBDA it : <<it[2], it[3]>>, SelectSeq(contents, LAMBDA it : it[1] = q[1] /\ it[3] >= q[2] /\ it[2] <= q[3]))
 
 Init == /\ mode = "plain" /\ nodeCache = {} /\ blockCache = EmptyCache /\ idxKnown = FALSE
         /\ last = [op |-> "none", q |-> <<0, 0, 0>>, ans |-> <<>>] /\ steps = 0
@@ -63,18 +77,31 @@ DoQuery(op, q) ==
   /\ steps' = steps + 1 /\ UNCHANGED mode
 Interval(q) == DoQuery("interval", q)
 Values(q) == DoQuery("values", q)
+\* a zoom query goes through the SAME reader: same lazily validated info, same two caches
+Zoom(q) ==
+  /\ ZRecs # <<>>
+  /\ IF mode = "cached"
+       THEN LET r == ReadBlocks(blockCache, ZBlocks(q), <<>>) IN
+            /\ nodeCache' = nodeCache \cup ZVisited(q) /\ blockCache' = r[1]
+            /\ last' = [op |-> "zoom", q |-> q, ans |-> ZAnswer(r[2], q)]
+       ELSE /\ UNCHANGED <<nodeCache, blockCache>>
+            /\ last' = [op |-> "zoom", q |-> q, ans |-> ZAnswer(Map(Content, ZBlocks(q)), q)]
+  /\ steps' = steps + 1 /\ UNCHANGED <<mode, idxKnown>>
 ToCached == /\ mode = "plain" /\ mode' = "cached" /\ nodeCache' = {} /\ blockCache' = EmptyCache
             /\ last' = [op |-> "cached", q |-> <<0, 0, 0>>, ans |-> <<>>] /\ steps' = steps + 1 /\ UNCHANGED idxKnown
 Reopen == /\ last' = [op |-> "reopen", q |-> <<0, 0, 0>>, ans |-> <<>>] /\ steps' = steps + 1
           /\ UNCHANGED <<mode, nodeCache, blockCache, idxKnown>>      \* caches and info are cloned
 
-Next == (\E q \in Queries : Interval(q) \/ Values(q)) \/ ToCached \/ Reopen
+Next == (\E q \in Queries : Interval(q) \/ Values(q) \/ Zoom(q)) \/ ToCached \/ Reopen
 
 \* the abstract answer: from the file alone
 TriplesOf(c) == Map(LAMBDA it : <<it[2], it[3], it[4]>>, SelectSeq(Items, LAMBDA it : it[1] = c))
 HistoryIndependent ==
   last.op \in {"interval", "values"} => IntervalOK(TriplesOf(last.q[1]), last.q[2], last.q[3], last.ans)
-CacheCoherent == /\ \A k \in DOMAIN blockCache : blockCache[k] = Items[k]
-                 /\ nodeCache \subseteq DOMAIN Img
+ZPairs(c) == Map(LAMBDA z : <<z[2], z[3]>>, SelectSeq(ZRecs, LAMBDA z : z[1] = c))
+ZoomHistoryIndependent ==
+  last.op = "zoom" => ZoomQueryOK(ZPairs(last.q[1]), last.q[2], last.q[3], last.ans)
+CacheCoherent == /\ \A k \in DOMAIN blockCache : blockCache[k] = Content(k)
+                 /\ nodeCache \subseteq (DOMAIN Img \cup {0 - o : o \in DOMAIN ZImg})
                  /\ Cardinality(DOMAIN blockCache) <= CacheCap
 =============================================================================
